@@ -1292,20 +1292,20 @@ fn h_oracle(ck: &mut Ck, a: &[&str]) {
             if hook.contains('q') && !hook[hook.rfind('q').unwrap()..].contains('x') {
                 ck.req("C14", q.contains(&format!("{}={}", h("hk"), h("Val")).as_str()), "qualifier inserted by the hook not reported");
             }
-            let last_cs = hook.rfind(|c| c == 'm' || c == 'c' || c == 'b' || c == 'x').map(|i| hook.as_bytes()[i] as char);
+            let last_cs = hook.rfind(|c| c == 'm' || c == 'o' || c == 'c' || c == 'b' || c == 'x').map(|i| hook.as_bytes()[i] as char);
             if last_cs == Some('b') || last_cs == Some('x') {
                 ck.req("C14", !q.iter().any(|kv| kv.starts_with(&format!("{}=", h("checksum")))), "checksum blanked / cleared by the hook still present");
             }
             if last_cs == Some('c') {
                 ck.req("C14", q.contains(&format!("{}={}", h("checksum"), h("a:ff,b:00")).as_str()), "checksum written by the hook not canonicalised");
             }
-            if last_cs == Some('m') {
+            if last_cs == Some('m') || last_cs == Some('o') {
                 ck.fail("C14", "malformed checksum written by the hook accepted");
             }
-        } else if matches!(hook.rfind(|c| c == 'm' || c == 'c' || c == 'b' || c == 'x').map(|i| hook.as_bytes()[i] as char), Some('b') | Some('x') | Some('c')) && !hook.contains('n') && !hook.contains('m') {
+        } else if matches!(hook.rfind(|c| c == 'm' || c == 'o' || c == 'c' || c == 'b' || c == 'x').map(|i| hook.as_bytes()[i] as char), Some('b') | Some('x') | Some('c')) && !hook.contains('n') && !hook.contains('m') && !hook.contains('o') {
             // a blanked, cleared or valid checksum is no reason to refuse: only a Parse error of the front end or an empty name may remain
             ck.req("C14", !main.contains("InvalidQualifier") || a[2] == "P", "PURL refused although the hook left no malformed checksum");
-        } else if hook.rfind(|c| c == 'm' || c == 'c' || c == 'b' || c == 'x').map(|i| hook.as_bytes()[i] as char) == Some('m') {
+        } else if hook.rfind(|c| c == 'm' || c == 'o' || c == 'c' || c == 'b' || c == 'x').map(|i| hook.as_bytes()[i] as char).map(|c| c == 'm' || c == 'o') == Some(true) {
             // the name check comes first, so an empty name may pre-empt the checksum error
             ck.req("C14", main == "E Parse:InvalidQualifier" || main == "E Parse:Missing(name)", "malformed checksum written by the hook: wrong error");
         }
